@@ -124,7 +124,8 @@ def draw_fcs(rng):
 def draw_fft(rng):
     """fft_settings dicts with different key sets (all are valid numpy.fft.rfft keywords)."""
     return {"t": "dict", "v": rng.choice([{"n": 4096}, {"n": 65536}, {"n": 32768, "norm": "ortho"},
-                                         {"norm": "backward"}, {"n": 8192, "norm": "forward"}, {"n": None}])}
+                                         {"norm": "backward"}, {"n": 8192, "norm": "forward"}, {"n": None},
+                                         {"n": {"t": "npint", "v": 65536}}, {"n": {"t": "npint", "v": 2048}, "axis": {"t": "npint", "v": -1}}])}
 
 
 def draw_args(rng, cls):
